@@ -10,7 +10,8 @@ correspondence: the model (QNum, vm_compute) is run beside the implementation on
                 fractions / selectivities; the whitelist and the absolute-pressure guard over all 16 model names
 oracle/search : certificate check of EVERY returned result on the implementation: fractions in [0,1] summing to one, equal
                 spreading pressures at p_i/x_i and the mixing rule, recomputed through the isotherms' own methods; closed forms
-                (Henry, equal-capacity Langmuir); permutation; forward o reverse; wrappers == point calculation; the same numbers handed over
+                (Henry, equal-capacity Langmuir); permutation; forward o reverse; wrappers == point calculation PER POINT (fraction vectors that do
+                not sum to one; sweeps in which some points have no solution: the helper returns iff every point returns); the same numbers handed over
                 as ints / tuples / integer and float32 ndarrays / numpy scalars give the result of Python floats (certificate + closed forms)
 """
 import itertools
@@ -29,9 +30,13 @@ MANIFEST = dict(
          "the solution for strictly increasing spreading pressures, closed forms for Henry and equal-capacity Langmuir mixtures (extended "
          "Langmuir); forward and reverse IAST invert each other (reverse_iast's gas fractions fed back into iast_point give the same loadings; from "
          "uniqueness + the two post-condition theorems, root finders as premises); (ii) for a hand-written model of pgiast.py (residual vector with last fraction 1-sum, default guess, range test, ideal "
-         "mixing, reverse_iast, iast_point_fraction / iast_binary_svp / iast_binary_vle, the _IAST_MODELS whitelist and the absolute-pressure "
+         "mixing, reverse_iast, the _IAST_MODELS whitelist and the absolute-pressure "
          "guard): the residual is zero iff all spreading pressures are equal, and WHENEVER the model returns, the returned loadings satisfy "
-         "the IAST equations - under the explicit premise that scipy.optimize.root(method='lm') reports success only at a zero of the residual. "
+         "the IAST equations - under the explicit premise that scipy.optimize.root(method='lm') reports success only at a zero of the residual; "
+         "(iii) for the definitions GENERATED from the source of iast_point_fraction / iast_binary_svp / iast_binary_vle (tools/py2v_iastwrap.py, fail-closed): "
+         "the fraction helper IS the point calculation at y_i*P for every fraction vector (summing to one or not), the selectivity and vapour-liquid helpers ARE "
+         "the map of the point calculation over the requested pressures / compositions - they return exactly when the point calculation returns at every point, "
+         "with its values, and otherwise fail with the error of the first refused point (no value for a point without a solution). "
          "That premise is NOT proved (Levenberg-Marquardt is not modelled; its success flag means a convergence test fired, not that the "
          "residual vanished): it is validated on every run by substituting every result the implementation returns back into the IAST "
          "equations through the isotherms' own spreading_pressure_at / loading_at (certificate check), together with the closed forms, "
@@ -178,6 +183,61 @@ def gen(tier, seed):
         cuts = sorted(rnd.sample(range(64, 960, 32), n - 1))
         xs = [(b - a) / 1024.0 for a, b in zip([0] + cuts, cuts + [1024])]
         C.append(dict(kind='types-wrappers', specs=specs, x=xs, P=rnd.randint(1, 12), variants=rnd.sample(sorted(TYPE_VARIANTS), 3)))
+    # E2: the fraction helper on ARBITRARY fraction vectors: summing to one, diluted in a non-adsorbing carrier (sum < 1), sloppy (sum 0.9 .. 1.1),
+    #     in excess (sum up to 3); closed-form families and general mixtures incl. point isotherms; default and user starting guesses
+    rw = random.Random(seed * 104729 + 13)
+    for i in range(320 if big else 48):
+        n = rw.choice([2, 2, 3, 4])
+        sub = ['general', 'henry', 'langmuir_eq', 'general'][i % 4]
+        Ks = [lu(rw, 0.05, 20) for _ in range(n)]
+        M = lu(rw, 0.5, 10)
+        if sub == 'henry':
+            specs = [('model', 'Henry', {'K': k}, 'absolute') for k in Ks]
+        elif sub == 'langmuir_eq':
+            specs = [('model', 'Langmuir', {'K': k, 'n_m': M}, 'absolute') for k in Ks]
+        else:
+            specs = [rspec(rw) for _ in range(n)]
+        how = ['normalised', 'diluted', 'sloppy', 'excess'][(i // 4) % 4]
+        raw = [rw.uniform(0.05, 1) for _ in range(n)]
+        target = {'normalised': 1.0, 'diluted': rw.uniform(0.05, 0.9), 'sloppy': rw.choice([0.9, 0.95, 0.99, 1.01, 1.05, 1.1]), 'excess': rw.uniform(1.2, 3.0)}[how]
+        ys = [r / sum(raw) * target for r in raw]
+        guess = None
+        if rw.random() < 0.2:
+            g = [rw.uniform(0.05, 1) for _ in range(n)]
+            guess = [x / sum(g) for x in g]
+        C.append(dict(kind='fraction', sub=sub, how=how, specs=specs, y=ys, P=lu(rw, 0.05, 20), guess=guess))
+    # E3: sweeps in which SOME points have no solution: point isotherms measured up to a few bar (the spreading pressure cannot be extrapolated
+    #     beyond the data), total pressures / compositions on both sides of that limit, in increasing and in arbitrary order
+    for i in range(240 if big else 36):
+        pmax = lu(rw, 2, 30)
+        def small_point():
+            fam = rw.choice(['Langmuir', 'DSLangmuir', 'Toth'])
+            return ('point', fam, rparams(rw, fam), rw.choice([25, 40]), pmax * rw.uniform(0.5, 1.5))
+        specs = [small_point(), small_point() if rw.random() < 0.5 else rspec(rw, point_ok=False)]
+        rw.shuffle(specs)
+        y1 = rw.choice([0.25, 0.5, 0.125, 0.75, 0.0625, 0.875])
+        if i % 3 != 2:
+            Ps = [pmax * lu(rw, 0.005, 0.3) for _ in range(rw.randint(1, 3))] + [pmax * lu(rw, 0.05, 4) for _ in range(rw.randint(1, 4))]
+            if rw.random() < 0.5:
+                Ps.sort()
+            else:
+                rw.shuffle(Ps)
+            guess = None if rw.random() < 0.8 else [y1, 1.0 - y1]
+            C.append(dict(kind='svp', specs=specs, y=[y1, 1.0 - y1], Ps=Ps, guess=guess, sweep='partly-unsolvable'))
+        else:
+            C.append(dict(kind='vle', specs=specs, P=pmax * lu(rw, 0.02, 1.2), npoints=rw.choice([3, 5, 9]), sweep='partly-unsolvable'))
+        if i % 4 == 1:      # the fraction helper where the point calculation may have no result
+            raw = [rw.uniform(0.05, 1), rw.uniform(0.05, 1)]
+            tgt = rw.choice([1.0, rw.uniform(0.1, 0.9), rw.uniform(1.1, 2.0)])
+            C.append(dict(kind='fraction', sub='general', how='near-data-limit', specs=specs, y=[v / sum(raw) * tgt for v in raw], P=pmax * lu(rw, 0.05, 3), guess=None))
+    # E4: selectivity sweeps with gas fractions that do NOT sum to one (documented: "Must add to 1"; the helper refuses them): whatever it does, it must not
+    #     report values that differ from the point calculation at y*P
+    for i in range(60 if big else 10):
+        specs = [rspec(rw, point_ok=False) for _ in range(2)]
+        raw = [rw.uniform(0.05, 1), rw.uniform(0.05, 1)]
+        tgt = rw.choice([0.5, 0.9, 0.99, 1.01, 1.1, 2.0])
+        C.append(dict(kind='svp', specs=specs, y=[v / sum(raw) * tgt for v in raw], Ps=sorted(lu(rw, 0.05, 20) for _ in range(rw.randint(2, 4))), guess=None,
+                      sweep='fractions-not-normalised'))
     # F: guards: every model name (whitelist), relative pressure, one component, wrong number of pressures, wrapper argument checks
     for name in ALL_MODELS:
         for fn in ('point', 'reverse'):
@@ -323,8 +383,11 @@ def jsonable(case):
     return {k: (v if not isinstance(v, tuple) else list(v)) for k, v in case.items()}
 
 
+EXTRA_TARGETS = ['Iast/IastShow.vo', 'Iast/IastExamples.vo']
+
+
 def run(rep, tier, seed):
-    vlib.standard_proof_phase(rep, 'C13', extra_targets=['Iast/IastShow.vo', 'Iast/IastExamples.vo'])
+    vlib.standard_proof_phase(rep, 'C13', extra_targets=EXTRA_TARGETS)
     explore(rep, tier, seed)
     if rep.broken and not rep.violations and tier != 'thorough':
         explore(rep, 'thorough', seed + 1)
@@ -584,71 +647,150 @@ def _explore(rep, tier, cases, pg, proxy):
                 elif got_f[0] == 'Ok':
                     nontrivial.add(('types-wrappers', vn, tuple(s_[1] for s_ in specs)))
         elif kind == 'fraction':
+            # iast_point_fraction(isos, y, P) against iast_point(isos, y * P) for ANY fraction vector the helper accepts (it refuses none):
+            # same outcome, same loadings; the loadings it returns satisfy the IAST equations AT the partial pressures y_i * P; closed forms
             n_eval += 1
             n = len(isos)
-            ys = [1.0 / n] * n
-            a = call(pg.iast_point_fraction, isos, ys, case['P'], warningoff=True)
-            b = call(pg.iast_point, isos, np.asarray(ys) * case['P'], warningoff=True)
-            note('fraction/%s' % a[0])
-            if a[0] != b[0] or (a[0] == 'Ok' and not np.array_equal(a[1], b[1])):
-                fail(case, 'fraction-wrapper', 'iast_point_fraction %r differs from iast_point at y*P %r' % (a, b))
-            elif a[0] == 'Ok':
-                nontrivial.add(('fraction', tuple(s[1] for s in specs)))
+            ys = case.get('y') or [1.0 / n] * n
+            P, guess = case['P'], case.get('guess')
+            pp = [float(v) for v in np.asarray(ys) * P]
+            a = call(pg.iast_point_fraction, isos, list(ys), P, warningoff=True, adsorbed_mole_fraction_guess=None if guess is None else list(guess))
+            b = call(pg.iast_point, isos, np.asarray(ys) * P, warningoff=True, adsorbed_mole_fraction_guess=None if guess is None else list(guess))
+            note('fraction-%s/%s' % (case.get('how', 'equal'), a[0]))
+            okb = b[0] == 'Ok'
+            if (a[0] == 'Ok') != okb:
+                fail(case, 'fraction-wrapper', 'iast_point_fraction(y=%r, P=%r) -> %s but iast_point at y*P = %r -> %s' % (ys, P, a[0], pp, b[0]),
+                     extra={'wrapper': a[0], 'point': b[0]})
+            elif okb and not close_n(a[1], b[1]):
+                fail(case, 'fraction-wrapper', 'iast_point_fraction(y=%r (sum %r), P=%r) returned %r, iast_point at the partial pressures y*P = %r returns %r' % (
+                    ys, sum(ys), P, [float(v) for v in a[1]], pp, [float(v) for v in b[1]]), extra={'wrapper': [float(v) for v in a[1]], 'point': [float(v) for v in b[1]]})
+            elif okb:
+                out = np.array(a[1], dtype=float)
+                tot = float(out.sum())
+                xs = [float(v) / tot for v in out] if tot != 0 and math.isfinite(tot) else None
+                ck, det = certificate(isos, pp, xs, out) if xs is not None else (None, None)
+                exp = None
+                if case.get('sub') == 'henry':
+                    exp = [s_[2]['K'] * v for s_, v in zip(specs, pp)]
+                elif case.get('sub') == 'langmuir_eq':
+                    c_ = sum(s_[2]['K'] * v for s_, v in zip(specs, pp))
+                    exp = [s_[2]['n_m'] * s_[2]['K'] * v / (1 + c_) for s_, v in zip(specs, pp)]
+                if ck:
+                    fail(case, ck, 'iast_point_fraction(y=%r, P=%r) returned %r which violate the IAST equations at the partial pressures y*P = %r: %s %r' % (
+                        ys, P, [float(v) for v in out], pp, ck, det), xs=xs, extra={'loadings': [float(v) for v in out], 'detail': det})
+                elif exp is not None and xs is not None and min(xs) >= TRACE and not close_n(out, exp):
+                    fail(case, case['sub'] + '-closed-form', '%s mixture through iast_point_fraction(y=%r, P=%r): returned %r, closed form at y*P %r' % (
+                        case['sub'], ys, P, [float(v) for v in out], exp), xs=xs, extra=[float(v) for v in out])
+                else:
+                    nontrivial.add(('fraction', tuple(s_[1] for s_ in specs), case.get('how', 'equal'), round(math.log10(P), 1), guess is None))
+            if a[0] in ('Ok', 'ParameterError', 'CalculationError') and b[0] in ('Ok', 'ParameterError', 'CalculationError'):
+                row = '(%s, %s)' % (zlist(pp), 'Ok %s' % zlist(b[1]) if okb else 'Err %s' % b[0])
+                terms.append('(fun r : Z*Z*Z => (fst (fst r), snd (fst r), 1, 1, snd r)) (cmp_frac [%s] %s %s (%d) %s %s)' % (
+                    row, zlist(ys), zme(P), occode(a[0]), zme(float(np.sum(np.abs(a[1]))) if a[0] == 'Ok' else 1.0), zlist(a[1]) if a[0] == 'Ok' else '[]'))
+                term_case.append((case, 'fraction'))
         elif kind == 'svp':
+            # the sweep against the point calculation, PER POINT: it returns iff the point calculation returns at every requested pressure, and then
+            # with exactly those selectivities; it never reports a value for a pressure at which the point calculation has no result
             n_eval += 1
-            ys, Ps = case['y'], case['Ps']
-            oc, out = call(pg.iast_binary_svp, isos, list(ys), list(Ps), warningoff=True)
-            note('svp/%s' % oc)
-            rows, good = [], True
+            ys, Ps, guess = case['y'], case['Ps'], case.get('guess')
+            gkw = dict(adsorbed_mole_fraction_guess=None if guess is None else list(guess))
+            oc, out = call(pg.iast_binary_svp, isos, list(ys), list(Ps), warningoff=True, **gkw)
+            note('svp%s/%s' % ('-' + case['sweep'] if case.get('sweep') else '', oc))
+            rows, good, points = [], True, []
             for P in Ps:
-                o2, n2 = call(pg.iast_point, isos, np.asarray(ys) * P, warningoff=True)
+                pp = np.asarray(ys) * P
+                o2, n2 = call(pg.iast_point, isos, pp, warningoff=True, **gkw)
+                points.append((o2, n2))
                 if o2 == 'Ok':
-                    rows.append('(%s, Ok %s)' % (zme(ys[0] * P), zlist(n2)))
-                    if oc == 'Ok':
-                        k = list(Ps).index(P)
-                        exp = (n2[0] / ys[0]) / (n2[1] / ys[1])
-                        if not (out['selectivity'][k] == exp):
-                            fail(case, 'svp-wrapper', 'selectivity[%d] = %r but the point calculation gives (n1/y1)/(n2/y2) = %r' % (k, out['selectivity'][k], exp))
+                    rows.append('(%s, Ok %s)' % (zlist(pp), zlist(n2)))
                 elif o2 in ('ParameterError', 'CalculationError'):
-                    rows.append('(%s, Err %s)' % (zme(ys[0] * P), o2))
+                    rows.append('(%s, Err %s)' % (zlist(pp), o2))
                 else:
                     good = False
-            if oc == 'Ok' and not np.array_equal(np.asarray(out['pressure']), np.asarray(Ps)):
-                fail(case, 'svp-wrapper', 'pressures returned %r differ from the pressures requested' % (out['pressure'],))
+            refused = [k for k, (o2, _) in enumerate(points) if o2 != 'Ok']
+            if oc == 'Ok':
+                sel = list(out['selectivity'])
+                if refused:
+                    k = refused[0]
+                    fail(case, 'svp-value-for-refused-point', 'iast_binary_svp returned selectivity[%d] = %r for total pressure %r, at which iast_point(y*P = %r) raises %s (whole result %r)' % (
+                        k, sel[k] if k < len(sel) else None, Ps[k], [float(v) for v in np.asarray(ys) * Ps[k]], points[k][0], [float(v) for v in sel]),
+                         extra={'selectivity': [float(v) for v in sel], 'point_outcomes': [o for o, _ in points]})
+                elif len(sel) != len(Ps):
+                    fail(case, 'svp-wrapper', '%d selectivities for %d pressures' % (len(sel), len(Ps)))
+                else:
+                    for k, (o2, n2) in enumerate(points):
+                        exp = (n2[0] / ys[0]) / (n2[1] / ys[1])
+                        if not math.isfinite(exp):
+                            continue
+                        if not (sel[k] == exp or abs(sel[k] - exp) <= 1e-9 * abs(exp)):
+                            fail(case, 'svp-wrapper', 'selectivity[%d] = %r but the point calculation gives (n1/y1)/(n2/y2) = %r' % (k, sel[k], exp),
+                                 extra={'selectivity': [float(v) for v in sel]})
+                            break
+                    else:
+                        nontrivial.add(('svp', tuple(s[1] for s in specs), len(Ps), case.get('sweep')))
+                if not np.array_equal(np.asarray(out['pressure'], dtype=float), np.asarray(Ps, dtype=float)):
+                    fail(case, 'svp-wrapper', 'pressures returned %r differ from the pressures requested' % (out['pressure'],))
+            elif oc == 'ParameterError' and sum(ys) != 1:
+                nontrivial.add(('svp-fractions-refused', tuple(s[1] for s in specs)))      # the documented argument check ("Must add to 1"): nothing returned, nothing to compare
+            elif not refused:
+                fail(case, 'svp-refuses-solvable-sweep', 'iast_binary_svp raised %s although iast_point returns at every requested pressure %r' % (oc, Ps), extra={'outcome': oc})
+            else:
+                nontrivial.add(('svp-refused', tuple(s[1] for s in specs), len(Ps), refused[0]))
             if good and oc in ('Ok', 'ParameterError', 'CalculationError'):
                 comps = [coq_comp(s, i, [], []) for s, i in zip(specs, isos)]
-                terms.append('(fun r : Z*Z*Z => (fst (fst r), snd (fst r), snd r, 1, 1)) (cmp_svp [%s] [%s] %s %s (%d) %s)' % (
-                    '; '.join(comps), '; '.join(rows), zlist(ys), zlist(Ps), occode(oc), zlist(out['selectivity']) if oc == 'Ok' else '[]'))
+                terms.append('(fun r : Z*Z*Z => (fst (fst r), snd (fst r), 1, 1, snd r)) (cmp_svp [%s] [%s] %s %s (%d) %s %s)' % (
+                    '; '.join(comps), '; '.join(rows), zlist(ys), zlist(Ps), occode(oc), zlist(out['pressure']) if oc == 'Ok' else '[]',
+                    zlist(out['selectivity']) if oc == 'Ok' and all(math.isfinite(float(v)) for v in out['selectivity']) else '[]'))
                 term_case.append((case, 'svp'))
-                if oc == 'Ok':
-                    nontrivial.add(('svp', tuple(s[1] for s in specs), len(Ps)))
         elif kind == 'vle':
             n_eval += 1
             P, npnt = case['P'], case['npoints']
             oc, out = call(pg.iast_binary_vle, isos, P, npoints=npnt, warningoff=True)
-            note('vle/%s' % oc)
+            note('vle%s/%s' % ('-' + case['sweep'] if case.get('sweep') else '', oc))
             ygrid = [float(v) for v in np.linspace(0.01, 0.99, npnt)]     # numpy's grid is an input of the model, not modelled
-            rows, good = [], True
+            rows, good, points = [], True, []
             for k, y in enumerate(ygrid):
-                o2, n2 = call(pg.iast_point, isos, np.array([y, 1 - y]) * P, warningoff=True)
+                pp = np.array([y, 1 - y]) * P
+                o2, n2 = call(pg.iast_point, isos, pp, warningoff=True)
+                points.append((o2, n2))
                 if o2 == 'Ok':
-                    rows.append('(%s, Ok %s)' % (zme(y * P), zlist(n2)))
-                    if oc == 'Ok' and not (out['x'][k + 1] == n2[0] / (n2[0] + n2[1])):
-                        fail(case, 'vle-wrapper', 'x[%d] = %r but the point calculation gives n1/(n1+n2) = %r' % (k + 1, out['x'][k + 1], n2[0] / (n2[0] + n2[1])))
+                    rows.append('(%s, Ok %s)' % (zlist(pp), zlist(n2)))
                 elif o2 in ('ParameterError', 'CalculationError'):
-                    rows.append('(%s, Err %s)' % (zme(y * P), o2))
+                    rows.append('(%s, Err %s)' % (zlist(pp), o2))
                 else:
                     good = False
-            if oc == 'Ok' and not (out['x'][0] == 0 and out['x'][-1] == 1 and out['y'][0] == 0 and out['y'][-1] == 1 and list(out['y'][1:-1]) == ygrid):
-                fail(case, 'vle-wrapper', 'end points / gas-fraction grid of the vapour-liquid curve: x=%r y=%r' % (list(out['x']), list(out['y'])))
+            refused = [k for k, (o2, _) in enumerate(points) if o2 != 'Ok']
+            if oc == 'Ok':
+                xo = [float(v) for v in out['x']]
+                if refused:
+                    k = refused[0]
+                    fail(case, 'vle-value-for-refused-point', 'iast_binary_vle returned x[%d] = %r for the gas fraction %r at total pressure %r, at which iast_point raises %s' % (
+                        k + 1, xo[k + 1] if k + 1 < len(xo) else None, ygrid[k], P, points[k][0]), extra={'x': xo, 'point_outcomes': [o for o, _ in points]})
+                elif len(xo) != npnt + 2:
+                    fail(case, 'vle-wrapper', '%d points for a grid of %d' % (len(xo), npnt))
+                else:
+                    for k, (o2, n2) in enumerate(points):
+                        exp = n2[0] / (n2[0] + n2[1])
+                        if not math.isfinite(exp):
+                            continue
+                        if not (xo[k + 1] == exp or abs(xo[k + 1] - exp) <= 1e-9 * abs(exp)):
+                            fail(case, 'vle-wrapper', 'x[%d] = %r but the point calculation gives n1/(n1+n2) = %r' % (k + 1, xo[k + 1], exp), extra={'x': xo})
+                            break
+                    else:
+                        nontrivial.add(('vle', tuple(s[1] for s in specs), npnt, case.get('sweep')))
+                if not (out['x'][0] == 0 and out['x'][-1] == 1 and out['y'][0] == 0 and out['y'][-1] == 1 and list(out['y'][1:-1]) == ygrid):
+                    fail(case, 'vle-wrapper', 'end points / gas-fraction grid of the vapour-liquid curve: x=%r y=%r' % (list(out['x']), list(out['y'])))
+            elif not refused:
+                fail(case, 'vle-refuses-solvable-sweep', 'iast_binary_vle raised %s although iast_point returns at every composition of the grid (P = %r)' % (oc, P), extra={'outcome': oc})
+            else:
+                nontrivial.add(('vle-refused', tuple(s[1] for s in specs), npnt, refused[0]))
             if good and oc in ('Ok', 'ParameterError', 'CalculationError'):
                 comps = [coq_comp(s, i, [], []) for s, i in zip(specs, isos)]
-                terms.append('(fun r : Z*Z*Z => (fst (fst r), snd (fst r), snd r, 1, 1)) (cmp_vle [%s] [%s] %s %s (%d) %s %s)' % (
+                finite = oc == 'Ok' and all(math.isfinite(float(v)) for v in out['x'])
+                terms.append('(fun r : Z*Z*Z => (fst (fst r), snd (fst r), 1, 1, snd r)) (cmp_vle [%s] [%s] %s %s (%d) %s %s)' % (
                     '; '.join(comps), '; '.join(rows), zme(P), zlist(ygrid), occode(oc),
-                    zlist(out['x']) if oc == 'Ok' else '[]', zlist(out['y']) if oc == 'Ok' else '[]'))
+                    zlist(out['x']) if finite else '[]', zlist(out['y']) if finite else '[]'))
                 term_case.append((case, 'vle'))
-                if oc == 'Ok':
-                    nontrivial.add(('vle', tuple(s[1] for s in specs), npnt))
         elif kind == 'guard':
             n_eval += 1
             fn, p = case['fn'], case['p']
@@ -671,12 +813,12 @@ def _explore(rep, tier, cases, pg, proxy):
                 oc, out = call(pg.iast_binary_svp, isos, list(p), [1.0], warningoff=True)
                 t = None
                 if oc == 'ParameterError':
-                    t = '(fun r : Z*Z*Z => (fst (fst r), snd (fst r), snd r, 1, 1)) (cmp_svp [%s] [] %s %s (%d) [])' % ('; '.join(comps), zlist(p), zlist([1.0]), occode(oc))
+                    t = '(fun r : Z*Z*Z => (fst (fst r), snd (fst r), 1, 1, snd r)) (cmp_svp [%s] [] %s %s (%d) [] [])' % ('; '.join(comps), zlist(p), zlist([1.0]), occode(oc))
             else:
                 oc, out = call(pg.iast_binary_vle, isos, 1.0, npoints=3, warningoff=True)
                 t = None
                 if oc == 'ParameterError':
-                    t = '(fun r : Z*Z*Z => (fst (fst r), snd (fst r), snd r, 1, 1)) (cmp_vle [%s] [] %s %s (%d) [] [])' % ('; '.join(comps), zme(1.0), zlist([0.01, 0.5, 0.99]), occode(oc))
+                    t = '(fun r : Z*Z*Z => (fst (fst r), snd (fst r), 1, 1, snd r)) (cmp_vle [%s] [] %s %s (%d) [] [])' % ('; '.join(comps), zme(1.0), zlist([0.01, 0.5, 0.99]), occode(oc))
             note('guard-%s/%s' % (fn, oc))
             # the property's whitelist / absolute-pressure clause, judged directly: a non-IAST model or a relative pressure must be refused
             names = [s[1] for s in specs]
@@ -712,15 +854,21 @@ def _explore(rep, tier, cases, pg, proxy):
     rep.cov['input_distribution'] = dict(sorted(hist.items()))
     rep.cov['generators'] = ('2-4 components; 8 model families with log-uniform parameters (K 0.05-20, capacities 0.5-10), 20% point isotherms (25-80 points sampled '
                              'from Langmuir/DSLangmuir/Toth); partial pressures log-uniform with ratio <= 8 (75%) or <= 300 (25%); 25% user guesses; closed-form '
-                             'families; random permutations; reverse problems with dyadic fractions; svp/vle/fraction wrappers; all 16 model names x guards; whole-number '
+                             'families; random permutations; reverse problems with dyadic fractions; svp/vle/fraction wrappers; the fraction helper on fraction vectors summing to one / '
+                             'diluted (sum 0.05-0.9) / sloppy (0.9-1.1) / in excess (1.2-3) for closed-form and general mixtures; selectivity and vapour-liquid sweeps over '
+                             'point isotherms measured up to 1-45 bar with pressures on both sides of that limit (some points without a solution), increasing and '
+                             'arbitrary order, default and user guesses; all 16 model names x guards; whole-number '
                              'partial / total pressures and dyadic fractions in 9 numeric representations (int list, tuple, int16/32/64 arrays, numpy int scalars, '
                              'float32 array / scalars, float64 array, mixed int-float list) for iast_point, iast_point_fraction, reverse_iast, iast_binary_svp / vle')
     rep.cov['correspondence'] = {'calls_compared_in_coq': len(terms), 'disagreements': n_dis, 'tolerance_rel': 1e-9,
-                                 'what': 'IastGlue (QNum) vs pgiast: outcome class, start vector, residual at the returned point vs the code\'s closure, returned values'}
+                                 'what': 'IastGlue (QNum) vs pgiast: outcome class, start vector, residual at the returned point vs the code\'s closure, returned values; '
+                                         'the helpers: the GENERATED definitions (Gen/IastWrapGen.v, QNum) over a table of what iast_point returned / raised per point'}
     rep.cov['certificate'] = {'rtol_spreading_pressure': RTOL_SP, 'rtol_loading_of_total': RTOL_N, 'worst_relative_spread_accepted': worst['sp_rel'],
                               'worst_root_residual_rel_when_success': worst['root_resid_rel']}
     rep.cov['samples'] += [{'case': jsonable(c)} for c in (cases[0], cases[len(cases) // 3], cases[-1])]
     rep.cov['trusted_base'] += ['hand-written model Iast/IastGlue.v (validated by the per-call correspondence above)',
+                                'translator tools/py2v_iastwrap.py (helpers -> Gen/IastWrapGen.v; its reading of numpy broadcasting / the loop as mapM is validated by executing '
+                                'the generated definitions beside the implementation)',
                                 'oracle: scipy.optimize.root(method=lm) - success => residual zero (validated by the certificate check on every returned result)',
                                 'oracle: pure-component spreading_pressure_at / loading_at (model formulas are C10/C11; scipy.integrate.quad for Toth, Jensen-Seaton)',
                                 'carrier: theorems over RNum, execution over QNum']
@@ -753,6 +901,23 @@ def replay(d):
               call(pg.iast_point_fraction, isos, list(r['x']), float(r['P']), warningoff=True))
         print('reverse_iast(%r, %r) ->' % (xa, Pa), call(pg.reverse_iast, isos, xa, Pa, warningoff=True), ' as floats ->',
               call(pg.reverse_iast, isos, list(r['x']), float(r['P']), warningoff=True))
+    elif kind == 'fraction':
+        n = len(isos)
+        ys = r.get('y') or [1.0 / n] * n
+        g = r.get('guess')
+        print('iast_point_fraction(y=%r (sum %r), P=%r) ->' % (ys, sum(ys), r['P']), call(pg.iast_point_fraction, isos, list(ys), r['P'], warningoff=True, adsorbed_mole_fraction_guess=g))
+        print('iast_point(y*P = %r) ->' % ([float(v) for v in np.asarray(ys) * r['P']],), call(pg.iast_point, isos, np.asarray(ys) * r['P'], warningoff=True, adsorbed_mole_fraction_guess=g))
+    elif kind == 'svp':
+        g = r.get('guess')
+        print('iast_binary_svp(y=%r, pressures=%r) ->' % (r['y'], r['Ps']), call(pg.iast_binary_svp, isos, list(r['y']), list(r['Ps']), warningoff=True, adsorbed_mole_fraction_guess=g))
+        for P in r['Ps']:
+            o2, n2 = call(pg.iast_point, isos, np.asarray(r['y']) * P, warningoff=True, adsorbed_mole_fraction_guess=g)
+            print('  point calculation at P = %r:' % P, o2, None if o2 != 'Ok' else ('loadings', [float(v) for v in n2], 'selectivity', (n2[0] / r['y'][0]) / (n2[1] / r['y'][1])))
+    elif kind == 'vle':
+        print('iast_binary_vle(P=%r, npoints=%r) ->' % (r['P'], r['npoints']), call(pg.iast_binary_vle, isos, r['P'], npoints=r['npoints'], warningoff=True))
+        for y in np.linspace(0.01, 0.99, r['npoints']):
+            o2, n2 = call(pg.iast_point, isos, np.array([y, 1 - y]) * r['P'], warningoff=True)
+            print('  point calculation at y = %r:' % float(y), o2, None if o2 != 'Ok' else ('loadings', [float(v) for v in n2], 'x1', n2[0] / (n2[0] + n2[1])))
     elif 'p' in r:
         parg = r['p']
         if r.get('variant') in TYPE_VARIANTS:
